@@ -166,6 +166,11 @@ def decide(pid, tier, seed, t0, cfg, claimed, deps, functions, unsupported, assu
         else:
             undecided.append((ob, 'solver answered %s (%s)' % (st, ob.result.get('reason', ''))))
     refuted = [o for o in proofs if o.name in refuted_names]
+    if os.environ.get('PYVC_BASELINE_OUT'):
+        # maintainer command tools/gen_baseline.py: dump name -> (verdict, hash of the function's source); never set by a registered check
+        os.makedirs(os.environ['PYVC_BASELINE_OUT'], exist_ok=True)
+        json.dump({o.name: {'status': o.result['status'], 'hash': functions_hash(functions, o.func)} for o in proofs},
+                  open(os.path.join(os.environ['PYVC_BASELINE_OUT'], pid + '.json'), 'w'), indent=0)
     # known findings
     kf_used = {}
     for ob in refuted:
@@ -205,8 +210,14 @@ def decide(pid, tier, seed, t0, cfg, claimed, deps, functions, unsupported, assu
         rep = R.make_replay(pid, ob, root, repo, tier)
         json.dump(rep, open(path, 'w'), indent=1, default=str)
         if rep.get('native', {}).get('reproduced') is False and rep['native'].get('replayable'):
-            undecided.append((ob, 'counter-model does not reproduce natively (engine artefact?)'))
-            continue
+            b = baseline.get(ob.name)
+            if not (b and b.get('status') == 'unsat'):
+                # not an obligation that was discharged on the baseline tree: without a failing input this is not reported as a violation
+                undecided.append((ob, 'refuted, but the counter-model does not reproduce natively and the obligation is not in the baseline of discharged obligations'))
+                continue
+            # discharged on the baseline tree, refuted now: reported, with the solver's counter-model in the replay file, even though the native search found no failing input
+            rep['native']['note'] = 'obligation was discharged on the baseline tree (baseline_obligations.json) and is refuted on this tree; the native search did not find a concrete failing input'
+            json.dump(rep, open(path, 'w'), indent=1, default=str)
         tail = '' if rep.get('native', {}).get('reproduced') else ' no-failing-input-found'
         lines.append('VIOLATION property=%s replay=%s obligation=%s%s' % (pid, path, ob.name.replace(' ', '_'), tail))
     code = 0
@@ -273,8 +284,11 @@ def decide(pid, tier, seed, t0, cfg, claimed, deps, functions, unsupported, assu
         if ev['coverage']['second_solver']['disagree']:
             print('GUARD property=%s solvers disagree on %s' % (pid, ev['coverage']['second_solver']['disagree']))
             code = max(code, 3) if code != 1 else 1
-    os.makedirs(os.path.join(VERIF, 'evidence'), exist_ok=True)
-    json.dump(ev, open(os.path.join(VERIF, 'evidence', pid + '.json'), 'w'), indent=1, default=str)
+    # the evidence directory describes /repo itself; a run on a scratch tree (--root, seeded-change validation) writes next to the replays (git-ignored)
+    evdir = os.path.join(VERIF, 'evidence') if os.path.realpath(root) == os.path.realpath('/repo') else os.path.join(VERIF, 'replays', 'scratch-evidence')
+    ev['coverage']['tree'] = os.path.realpath(root)
+    os.makedirs(evdir, exist_ok=True)
+    json.dump(ev, open(os.path.join(evdir, pid + '.json'), 'w'), indent=1, default=str)
     print('%s: %d obligations claimed, %d discharged, %d known-finding, %d refuted, %d undecided, %d/%d covers sat; %.1fs [%s]'
           % (pid, n_claimed, n_dis, len(findings_matched), len(violations), len(undecided), sum(ok(o) for o in covers), len(covers),
              time.time() - t0, tier))
